@@ -786,7 +786,20 @@ pub fn gen_config(r: &mut Rng, lans: &[Lan], clients: &[ClientSpec], allow_polic
                 2 => ("host-name".to_string(), 12u8, Some("host".to_string())),
                 _ => ("user-class".to_string(), 77u8, Some("lab".to_string())),
             };
-            let sub = PolicyM { match_other: vec![cond], apply_range: vec![(hs[a].into(), hs[b].into())], ..Default::default() };
+            let mut conds = vec![cond];
+            {
+                /* sometimes a second condition on another option: both must hold (own stream) */
+                let mut k2 = Rng::new(key ^ u32::from(lan.server_ip) as u64, "cfg-match-option-second");
+                if k2.chance(0.45) {
+                    let second = if conds[0].1 == 77 { ("class-id".to_string(), 60u8, Some("pxe".to_string())) } else { ("user-class".to_string(), 77u8, Some("lab".to_string())) };
+                    if k2.chance(0.5) {
+                        conds.push(second);
+                    } else {
+                        conds.insert(0, second);
+                    }
+                }
+            }
+            let sub = PolicyM { match_other: conds, apply_range: vec![(hs[a].into(), hs[b].into())], ..Default::default() };
             let at = k.below(outer.policies.len() as u64 + 1) as usize;
             outer.policies.insert(at, sub);
         }
@@ -802,6 +815,18 @@ pub fn gen_config(r: &mut Rng, lans: &[Lan], clients: &[ClientSpec], allow_polic
                 p.match_subnet = None;
                 for c in listed.iter().take(k.range(1, 2) as usize) {
                     p.policies.push(PolicyM { match_chaddr: Some(c.chaddr.clone()), ..Default::default() });
+                }
+                {
+                    /* ... or that send two options at once: a request carrying only one of the
+                     * two matches no pool and must be ignored (own stream) */
+                    let mut k2 = Rng::new(key ^ u32::from(lan.server_ip) as u64, "cfg-allow-list-two-options");
+                    if k2.chance(0.5) {
+                        let mut conds = vec![("class-id".to_string(), 60u8, Some("pxe".to_string())), ("user-class".to_string(), 77u8, Some("lab".to_string()))];
+                        if k2.chance(0.5) {
+                            conds.reverse();
+                        }
+                        p.policies.push(PolicyM { match_other: conds, ..Default::default() });
+                    }
                 }
             }
         }
